@@ -69,6 +69,11 @@ SugarAtoms == {
   Num("port", "=", 80), Num("port", ">", 255),
   Num("protocol", "=", 6), Num("ipproto", "!=", 17), Sym("protocol", "=", "udp") }
 
+\* host names as values (not part of FullAtoms: they need the resolver table of the check)
+Nm(attr, cmp, name) == At(attr, cmp, <<>>, 0, name)
+NameAtoms == { Nm("sip", "=", "two4.test"), Nm("sip", "!=", "two4.test"), Nm("dip", "=", "mixed.test"),
+               Nm("dip", "!=", "mixed.test"), Nm("sip", "!=", "one.test") }
+
 FullAtoms == AddrAtoms \cup SnetAtoms \cup DnetAtoms \cup NumAtoms \cup SugarAtoms
 
 Core6 == {
